@@ -44,13 +44,19 @@ func c02R1(c *Ctx) {
 			o, id := args[0], args[1]
 			construct := FuncName(fn) + "/calls:" + cn
 			pos := P.InstrPos(e.Site)
-			ex0, ok0 := o.(*ssa.Extract)
-			ex1, ok1 := id.(*ssa.Extract)
+			ex0, ok0 := unwrapLoad(o).(*ssa.Extract)
+			ex1, ok1 := unwrapLoad(id).(*ssa.Extract)
 			if ok0 && ok1 && ex0.Tuple == ex1.Tuple && ex0.Index == 0 && ex1.Index == 1 {
 				call, ok := ex0.Tuple.(*ssa.Call)
 				if ok && call.Call.StaticCallee() == fu {
 					er, _ := errorResult(call)
-					c.check(er != nil && knownNil(er, e.Site.Block()), construct, pos, FuncName(fn),
+					// the error is judged where the pair is used; for a pair captured by a
+					// closure, where the closure is created
+					at := e.Site.Block()
+					if call.Parent() != fn {
+						at = closureCreationBlock(fn, call.Parent())
+					}
+					c.check(er != nil && at != nil && knownNil(er, at), construct, pos, FuncName(fn),
 						"(object, id) are results #0/#1 of one FetchUnknown call whose error is known nil", "the FetchUnknown error is not checked before its (object, id) are used")
 					continue
 				}
